@@ -189,3 +189,38 @@ func VP_C19_Deep() {
 	vpObserveInt("nodes", total)
 	vpReach("end")
 }
+
+// VP_C19_Nested: a traversal started while another one is in progress, after
+// earlier traversals have run to completion, does not disturb the outer one
+// (the traversal keeps no state outside the iteration).
+func VP_C19_Nested() {
+	n := vpCase("n")
+	nodes := vpTree(n)
+	root := nodes[0]
+	wantPre, wantPost := vpPre(root, nil), vpPost(root, nil)
+	// warm-up: complete traversals first
+	for range root.PreOrder() {
+	}
+	for range root.PostOrder() {
+	}
+	var outer []*Node
+	innerOK := true
+	for a := range root.PreOrder() {
+		outer = append(outer, a)
+		var inner []*Node
+		for b := range root.PostOrder() {
+			inner = append(inner, b)
+		}
+		innerOK = innerOK && vpSameNodes(inner, wantPost)
+	}
+	vpAssert(vpSameNodes(outer, wantPre), "an outer PreOrder is not disturbed by traversals run inside its loop")
+	vpAssert(innerOK, "traversals run inside another traversal are complete")
+	outer = nil
+	for a := range root.PostOrder() {
+		outer = append(outer, a)
+		for range a.PreOrder() {
+		}
+	}
+	vpAssert(vpSameNodes(outer, wantPost), "an outer PostOrder is not disturbed by traversals run inside its loop")
+	vpReach("end")
+}
